@@ -112,8 +112,8 @@ def run(chk):
                 chk.disagree(f"c01:{c['fam']}:{op_key(c['p'])}:{name}:{src[:90]}", {"src": src, "config": name, "cmd": cmd},
                              c["out"] if c["out"]["k"] == "err" else tla_to_py(c["out"]["v"]), r, what)
     # ---- object programs with inheritance: the object model (Objects.tla) prescribes every field and the manifestation
-    from render import obj_chain
-    ofams = ["plus", "refs", "omit"]
+    from render import obj_chain, obj_chain_shared
+    ofams = ["plus", "refs", "omit", "locals"]
     ors = run_tlc_many([dict(module="Objects", cfg=f"MC_Objects_{f}.cfg", workers=5, timeout=3000, xmx="8g") for f in ofams], parallel=3)
     ocmds, ometa = [], []
     for f, r in zip(ofams, ors):
@@ -121,9 +121,13 @@ def run(chk):
         rep = r.replay
         if not thorough and len(rep) > 1200:
             rng.shuffle(rep)
+            if f == "locals":
+                rep.sort(key=lambda c: obj_chain_shared(c["chain"]) is None)
             rep = rep[:1200]
         for c in rep:
             O = obj_chain(c["chain"], rng.randrange(2))
+            if f == "locals":
+                O = obj_chain_shared(c["chain"]) or O       # equal layers as one object value mixed in twice
             for name in ("a", "b"):
                 g = c["obs"][name]["get"]
                 ocmds.append({"cmd": "eval", "id": len(ocmds), "src": f"{O}.{name}"})
